@@ -148,8 +148,11 @@ def sym_modules(threads_per_block=4):
     G = clone_module(core, dict(np=NP, _prange=range))
     cuda = FakeCuda()
     GC = clone_module(cc, dict(np=NP, math=MathShim(), cuda=cuda, THREADS_PER_BLOCK=threads_per_block, _reduce_stats_nb=G["_reduce_stats_nb"]))
+    import types as _ty
     for name in list(GC):
-        if name.endswith("_kernel") and callable(GC[name]) and not isinstance(GC[name], FakeKernel):
+        real = cc.__dict__.get(name)
+        # device kernels are numba dispatcher objects (they have py_func and are not plain functions); host helpers are not
+        if real is not None and hasattr(real, "py_func") and not isinstance(real, _ty.FunctionType) and "cuda" in type(real).__module__ and callable(GC[name]) and not isinstance(GC[name], FakeKernel):
             GC[name] = FakeKernel(GC[name], cuda, GC)
     _CACHE[key] = (G, GC, cuda)
     return _CACHE[key]
